@@ -316,6 +316,40 @@ Theorem C05_call_binds_values : forall P eps n fname l args target s,
 Proof. exact eval_call_S. Qed.
 Print Assumptions C05_call_binds_values.
 
+(* Call by value and evaluation order.  C05_call_binds_values above binds the parameters from
+   `evals args s`; evals (= Lang.evals_with at the evaluator of the next lower fuel) threads the
+   state through the argument list, so the parameters are NOT all read from one pre-call state:
+   the argument at any position is evaluated in the state left by the arguments before it, its
+   value is fixed there, and the arguments after it start from the state it leaves. *)
+Theorem C05_args_left_to_right : forall P eps n pre e post s o vs s',
+  evals P eps n (pre ++ e :: post) s = (o, Ok (vs, s')) ->
+  exists o1 vpre sk o2 v sk1 o3 vpost,
+    evals P eps n pre s = (o1, Ok (vpre, sk)) /\
+    eval P eps n e sk = (o2, Ok (v, sk1)) /\
+    evals P eps n post sk1 = (o3, Ok (vpost, s')) /\
+    vs = vpre ++ v :: vpost /\ length vpre = length pre /\ o = o1 ++ o2 ++ o3.
+Proof. exact args_left_to_right. Qed.
+Print Assumptions C05_args_left_to_right.
+
+(* In particular an argument that is a plain variable is bound to the variable's value after the
+   earlier arguments and before the later ones (`f(a, g())` with g mutating a: the parameter is
+   the old a; `f(g(), a)`: the new a). *)
+Theorem C05_arg_var_snapshot : forall P eps n pre a la post s o vs s',
+  evals P eps (S n) (pre ++ EVar a la :: post) s = (o, Ok (vs, s')) ->
+  exists o1 vpre sk va,
+    evals P eps (S n) pre s = (o1, Ok (vpre, sk)) /\
+    lookup_env la a (env sk) = Some va /\
+    nth_error vs (length pre) = Some va.
+Proof. exact arg_var_snapshot. Qed.
+Print Assumptions C05_arg_var_snapshot.
+
+(* The i-th parameter name is bound to the i-th argument value (newest slot first). *)
+Theorem C05_params_bound_positionally : forall fid ls ps vs k acc,
+  map (fun sl => (s_name sl, s_val sl)) (bind_params fid ls ps vs k acc) =
+  rev (combine ps vs) ++ map (fun sl => (s_name sl, s_val sl)) acc.
+Proof. exact bind_params_pairs. Qed.
+Print Assumptions C05_params_bound_positionally.
+
 (* ---- the hypotheses are satisfiable: concrete nested arrays, a copy, depth-2 writes ---- *)
 Definition nm_a : name := [97].
 Definition nm_b : name := [98].
